@@ -2,7 +2,7 @@
 
 use crate::ckalloc;
 use crate::ctx::Ctx;
-use crate::elem::{Elem, B1, P8, T24, Z};
+use crate::elem::{Elem, B1, P8, T24, Z, Z8};
 use crate::states::{build, Coll, MapC, SetC, Spec, TableC, RECIPES};
 use crate::util::{Json, Rng};
 
@@ -309,18 +309,18 @@ fn case<C: Ops>(c: &mut Ctx, spec: &Spec, rng: &mut Rng, name: &str) {
 }
 
 /// HashTable of zero-sized duplicates: elements are indistinguishable, so counts are compared.
-fn zst_table(c: &mut Ctx, rng: &mut Rng) {
+fn zst_table<ZT: Elem>(c: &mut Ctx, rng: &mut Rng) {
     use crate::ckalloc::CkAlloc;
     let n = *rng.pick(&[1usize, 2, 5, 8, 15, 16, 17, 40]);
     let h = rng.next();
     let mk = || {
-        let mut t: hashbrown::HashTable<Z, CkAlloc> = hashbrown::HashTable::new_in(CkAlloc);
+        let mut t: hashbrown::HashTable<ZT, CkAlloc> = hashbrown::HashTable::new_in(CkAlloc);
         for _ in 0..n {
-            t.insert_unique(h, Z::make(0, 0), |_| h);
+            t.insert_unique(h, ZT::make(0, 0), |_| h);
         }
         t
     };
-    let what = format!("HashTable<Z> with {} duplicates (hash {:#x})", n, h);
+    let what = format!("HashTable<{}> with {} duplicates (hash {:#x})", ZT::NAME, n, h);
     for keep_mod in [1usize, 2, 3, usize::MAX] {
         c.evaluations += 1;
         c.sig_parts(&[900, (n > 16) as u64, keep_mod.min(9) as u64]);
@@ -378,7 +378,11 @@ pub fn run(c: &mut Ctx) {
             6 => case::<TableC<P8>>(c, &spec, rng, "table:P8"),
             7 => case::<SetC<Z>>(c, &spec, rng, "set:Z"),
             8 => case::<TableC<Z>>(c, &spec, rng, "table:Z"),
-            _ => zst_table(c, rng),
+            _ => {
+                zst_table::<Z>(c, rng);
+                zst_table::<Z8>(c, rng);
+                case::<TableC<Z8>>(c, &spec, rng, "table:Z8");
+            }
         }
     });
 }
